@@ -38,6 +38,7 @@ CODEC_ID = dict(pq_codecs.CODEC_IDS)
 PAGE_TYPE = {0: "DATA_PAGE", 1: "INDEX_PAGE", 2: "DICTIONARY_PAGE", 3: "DATA_PAGE_V2"}
 REPETITION = {0: "REQUIRED", 1: "OPTIONAL", 2: "REPEATED"}
 REPETITION_ID = {v: k for k, v in REPETITION.items()}
+MAX_PAGE_VALUES = 1 << 24        # a page announcing more values than this is treated as malformed (memory guard)
 FIXED_WIDTH = {"BOOLEAN": 1, "INT32": 4, "INT64": 8, "INT96": 12, "FLOAT": 4, "DOUBLE": 8}
 
 
@@ -994,6 +995,17 @@ def _i32(crc):
 def read_file(data, decode_values=True):
     """Parse a Parquet file held in memory -> ParsedFile.  Never raises on malformed input: whatever is wrong
     is recorded in .violations (and .fatal is set when the footer cannot be used at all)."""
+    try:
+        return _read_file(data, decode_values)
+    except (RecursionError, MemoryError, ValueError, TypeError, IndexError, KeyError, OverflowError, struct.error, AttributeError) as e:
+        pf = ParsedFile(data)
+        pf._v("unreadable", "file", f"the file cannot be interpreted at all ({type(e).__name__}: {e})")
+        pf.fatal = True
+        return pf
+
+
+def _read_file(data, decode_values):
+    """read_file without the last-resort guard."""
     pf = ParsedFile(data)
     d = pf.data
     n = len(d)
@@ -1147,6 +1159,9 @@ def _read_chunk(pf, r, c, cc, leaf, decode_values):
                 pf._v("page_decode", f"{where}.page{i}", str(e))
             except CodecUnavailable as e:
                 pf._v("codec_unavailable", f"{where}.page{i}", f"cannot check pages compressed with {e}", "warn")
+            except (ThriftError, ValueError, TypeError, IndexError, KeyError, OverflowError, MemoryError, struct.error) as e:
+                # read_file never raises: whatever a malformed page provokes is a finding about the page
+                pf._v("page_decode", f"{where}.page{i}", f"page cannot be decoded ({type(e).__name__}: {e})")
     return ch
 
 
@@ -1166,7 +1181,9 @@ def _decode_page(pf, ch, pg, codec, where):
         pg.encoding = ENCODING.get(enc, str(enc))
         if enc not in (0, 2):
             raise DecodeError(f"dictionary page encoding {pg.encoding}")
-        n = dh.get("num_values") or 0
+        n = dh.get("num_values")
+        if n is None or n < 0 or n > MAX_PAGE_VALUES:
+            raise DecodeError(f"dictionary page num_values {n}")
         vals, pos = plain_decode(leaf.ptype, body, 0, len(body), n, leaf.type_length)
         if pos != len(body):
             pf._v("page_trailing_bytes", where, f"{len(body) - pos} bytes after the {n} dictionary values")
@@ -1178,7 +1195,9 @@ def _decode_page(pf, ch, pg, codec, where):
         if dh is None:
             return
         n = dh.get("num_values")
-        pg.num_values = n or 0
+        if n is None or n < 0 or n > MAX_PAGE_VALUES:
+            raise DecodeError(f"data page num_values {n}")
+        pg.num_values = n
         enc = dh.get("encoding")
         pg.encoding = ENCODING.get(enc, str(enc))
         body = pq_codecs.decompress(codec, raw, pg.uncompressed_size)
@@ -1222,12 +1241,14 @@ def _decode_page(pf, ch, pg, codec, where):
         dh = h.get("data_page_header_v2")
         if dh is None:
             return
-        n = dh.get("num_values") or 0
+        n = dh.get("num_values")
+        if n is None or n < 0 or n > MAX_PAGE_VALUES:
+            raise DecodeError(f"data page v2 num_values {n}")
         pg.num_values = n
         enc = dh.get("encoding")
         pg.encoding = ENCODING.get(enc, str(enc))
         rl, dl = dh.get("repetition_levels_byte_length") or 0, dh.get("definition_levels_byte_length") or 0
-        if rl + dl > len(raw):
+        if rl < 0 or dl < 0 or rl + dl > len(raw):
             raise DecodeError("v2 level lengths exceed the page")
         reps, defs = [0] * n, [leaf.max_def] * n
         if leaf.max_rep > 0:
